@@ -437,14 +437,46 @@ def run_request(S: Any, W: World, token: Any, script: tuple[str, ...], during: s
 def native_replay_evictor(op: str) -> ReplayResult:
     mod = _native()
     op = {"get": "get_inline_expiry", "second_request_after_ttl": "get_inline_expiry", "reaper_after_ttl": "drain_expired"}.get(op, op)
-    ev = mod.replay_a(op if op in ("shutdown", "drain_expired_opened_in_request", "get_inline_expiry") else "drain_expired")
+    ev = bounded_native(mod.replay_a, op if op in ("shutdown", "drain_expired_opened_in_request", "get_inline_expiry") else "drain_expired")
+    if ev is None:
+        return ReplayResult(True, f"native replay ({op}) deadlocked: some thread waits forever for an entry lock")
     bad = ("close_hook", "during_dispatch") in ev
     return ReplayResult(bad, f"request inside its method, then {op}: {ev}")
 
 
+def bounded_native(fn: Any, *a: Any) -> Any:
+    """Run a native replay in a daemon thread: a replay that deadlocks (a lock that is never released) must not hang
+    the checker."""
+    box: dict[str, Any] = {}
+
+    def run() -> None:
+        try:
+            box["r"] = fn(*a)
+        except Exception as e:  # pragma: no cover - reported in the replay detail
+            box["e"] = e
+
+    t = threading.Thread(target=run, daemon=True)
+    t.start()
+    t.join(60)
+    if "r" in box:
+        return box["r"]
+    if "e" in box:
+        raise box["e"]
+    return None
+
+
+def native_replay_lock_leak() -> ReplayResult:
+    ev = bounded_native(_native().replay_c)
+    bad = ev is None or ("second_request", "blocked_forever_on_entry_lock") in ev
+    return ReplayResult(bad, f"a second request after a completed one on the same session: {ev}")
+
+
 def native_replay_late_dispatch(how: str = "close_session") -> ReplayResult:
     how = {"closed_by_another_request": "close_session", "reaper_after_ttl": "drain_expired"}.get(how, how)
-    ev, res = _native().replay_b(how)
+    out = bounded_native(_native().replay_b, how)
+    if out is None:
+        return ReplayResult(True, f"native replay ({how}) deadlocked: some thread waits forever for an entry lock")
+    ev, res = out
     bad = any(e[0] == "dispatch_begin" and e[2] == "closed" for e in ev)
     return ReplayResult(bad, f"R2 waits on entry.lock while the session ends by {how}: {ev} results={res}")
 
@@ -467,6 +499,8 @@ def _native() -> Any:
 def replay_request(inputs: dict[str, Any], ob: Any) -> ReplayResult:
     at, during = inputs.get("at_acquire", "none"), inputs.get("during", "none")
     name = getattr(ob, "name", "") or ""
+    if "every_entry_lock_is_released" in name:
+        return native_replay_lock_leak()
     if at != "none":
         return native_replay_late_dispatch(at)
     if "O3" in name or (not inputs.get("resumed", True) and during in ("reaper_after_ttl", "shutdown")):
@@ -762,10 +796,10 @@ def replay_a(op: str):
     try:
         with proxy_cm as proxy, proxy.with_session_token() as sess:
             if op.endswith("opened_in_request"):
-                t = threading.Thread(target=lambda: sess.open_and_work())
+                t = threading.Thread(daemon=True, target=lambda: sess.open_and_work())
             else:
                 sess.open()
-                t = threading.Thread(target=lambda: sess.work(tag="blocker"))
+                t = threading.Thread(daemon=True, target=lambda: sess.work(tag="blocker"))
             t.start()
             inside.wait(10)
             entry = next(iter(reg._entries.values()))
@@ -782,9 +816,9 @@ def replay_a(op: str):
                             ev.append(("second_request", type(e).__name__))
                         s2._token = None
 
-                d = threading.Thread(target=second)
+                d = threading.Thread(daemon=True, target=second)
             else:
-                d = threading.Thread(target=reg.shutdown if op == "shutdown" else (lambda: reg.drain_expired(now=float("inf"))))
+                d = threading.Thread(daemon=True, target=reg.shutdown if op == "shutdown" else (lambda: reg.drain_expired(now=float("inf"))))
             d.start()
             wait_until(lambda: not d.is_alive() or entry.lock.waiting.is_set())
             ev.append(("evictor", "finished" if not d.is_alive() else "blocked_on_entry_lock"))
@@ -795,6 +829,34 @@ def replay_a(op: str):
     finally:
         sk.threading = saved
         client.close()
+    return ev
+
+
+def replay_c(script: str = ""):
+    """Lock leak: after a request on a session has completed, a second request on it must get the entry lock."""
+    client, reg, proxy_cm, ev, inside, go, saved = world()
+    done = threading.Event()
+    try:
+        with proxy_cm as proxy, proxy.with_session_token() as sess:
+            go.set()
+            sess.open()
+            tok = sess.current_session_token()
+            sess.work(tag="first")
+
+            def second():
+                with proxy.with_session_token(token=tok) as s2:
+                    try:
+                        s2.work(tag="second")
+                    except Exception as e:
+                        ev.append(("second", type(e).__name__))
+                    s2._token = None
+                done.set()
+
+            threading.Thread(daemon=True, target=second).start()
+            ev.append(("second_request", "completed" if done.wait(5) else "blocked_forever_on_entry_lock"))
+            sess._token = None
+    finally:
+        sk.threading = saved
     return ev
 
 
@@ -823,15 +885,15 @@ def replay_b(how: str = "close_session"):
                         res["R2"] = f"{type(e).__name__}: {str(e)[:60]}"
                     s2._token = None
 
-            t1 = threading.Thread(target=r1)
+            t1 = threading.Thread(daemon=True, target=r1)
             t1.start()
             inside.wait(10)
-            t2 = threading.Thread(target=r2)
+            t2 = threading.Thread(daemon=True, target=r2)
             t2.start()
             wait_until(lambda: entry.lock.waiting.is_set())
             d = None
             if how != "close_session":
-                d = threading.Thread(target=reg.shutdown if how == "shutdown" else (lambda: reg.drain_expired(now=float("inf"))))
+                d = threading.Thread(daemon=True, target=reg.shutdown if how == "shutdown" else (lambda: reg.drain_expired(now=float("inf"))))
                 d.start()
                 wait_until(lambda: not d.is_alive() or len(reg._entries) == 0)
             go.set()
